@@ -45,13 +45,18 @@ def load_prop(prop: str) -> Any:
 
 def _reset_process_state() -> None:
     """Clear the process-global caches of pjrpc so that one run cannot influence the next."""
-    from pjrpc.server.validators import base as vbase
-    vbase.BaseValidator.signature.cache_clear()
-    try:
-        from pjrpc.server.validators import pydantic as vpyd
-        vpyd.PydanticValidator.build_validation_schema.cache_clear()
-    except Exception:  # noqa: BLE001 - pydantic validator is optional
-        pass
+    import sys as _sys
+    for modname in ('pjrpc.server.validators.base', 'pjrpc.server.validators.pydantic',
+                    'pjrpc.server.validators.jsonschema'):
+        mod = _sys.modules.get(modname)
+        if mod is None:
+            continue
+        for cls in vars(mod).values():
+            if isinstance(cls, type):
+                for attr in vars(cls).values():
+                    clear = getattr(attr, 'cache_clear', None)
+                    if callable(clear):
+                        clear()
 
 
 def execute(prop: str, family: str, seed: Optional[int], prefix: Sequence[int] = (),
@@ -345,7 +350,10 @@ def run_check(prop: str, tier: str, base: int, workers: int, budget_s: Optional[
     t0 = _real_time.time()
     mod = load_prop(prop)
     known = load_known()
-    plan = mod.PLAN[tier]  # family -> number of random seeds
+    plan = dict(mod.PLAN[tier])  # family -> number of random seeds
+    if os.environ.get('VERIF_FAMILIES'):
+        only = set(os.environ['VERIF_FAMILIES'].split(','))
+        plan = {f: n for f, n in plan.items() if f in only}
     chunk = getattr(mod, 'CHUNK', 50)
     problems = selftest_determinism(prop, base, per_family=2 if tier == 'quick' else 4)
     tasks: List[Tuple[str, str, int, List[Any], int]] = []
